@@ -41,6 +41,9 @@ def snapshot(chip):
 def apply_op(L, kind, obj, op):
     name = op[0]
     a = [c03_config.dec(x) for x in op[1:]]
+    if name == "print":
+        c03_config.print_report(obj, a)  # every class inherits print_pipes()/print_details(); they re-read the shadows
+        return
     if kind == "RF24":
         if name in ("getters", "getp", "ctx"):
             if name == "getters":
@@ -144,6 +147,7 @@ def _strategy():
         st.tuples(st.just("pa_level"), st.sampled_from([-18, -12, -6, 0])),
         st.tuples(st.just("interrupt_config"), b, b, b), st.tuples(st.just("listen"), b),
     ]
+    common.append(st.sampled_from([("print", "pipes"), ("print", "details", True), ("print", "details", False)]))
     ble_op = st.one_of(*common, st.tuples(st.just("ble_name"), st.sampled_from(["n", "nRF24", {"t": "none"}])),
                        st.tuples(st.just("ble_show_pa"), b), st.just(("ble_hop",)),
                        st.tuples(st.just("payload_length"), st.integers(1, 32))).map(list)
@@ -176,7 +180,45 @@ def _strategy():
     return case()
 
 
+B = c03_config.B
+PRINTS = [["print", "pipes"], ["print", "details", True]]
+COMMON = [["channel", 2], ["channel", 125], ["pa_level", -12], ["interrupt_config", False, True, False], ["listen", True],
+          ["listen", False]] + PRINTS
+ALPHA = {
+    "RF24": [["channel", 7], ["data_rate", 250], ["pa_level", -18], ["crc", 1], ["crc", 0], ["address_length", 3], ["address_length", 4],
+             ["set_auto_retries", 1000, 7], ["auto_ack", 0x3E], ["auto_ack", False], ["dynamic_payloads", 0x01],
+             ["dynamic_payloads", False], ["payload_length", 7], ["set_payload_length", 9, 1], ["ack", True],
+             ["allow_ask_no_ack", False], ["interrupt_config", True, False, True], ["power", False],
+             ["open_rx_pipe", 0, B("a1a2a3a4a5")], ["open_rx_pipe", 0, B("b1b2")], ["open_rx_pipe", 1, B("c1c2c3c4c5")],
+             ["open_rx_pipe", 1, B("d1d2d3")], ["open_rx_pipe", 2, B("e1")], ["open_rx_pipe", 5, B("f1")], ["close_rx_pipe", 0],
+             ["close_rx_pipe", 1], ["open_tx_pipe", B("7172737475")], ["open_tx_pipe", B("9192")], ["listen", True],
+             ["listen", False], ["start_carrier_wave"]] + PRINTS,
+    "FakeBLE": COMMON + [["ble_name", "nRF24"], ["ble_show_pa", True], ["ble_hop"], ["payload_length", 20], ["channel", 26]],
+    "Network": COMMON + [["data_rate", 2], ["crc", 1], ["set_auto_retries", 1500, 3], ["node_address", 0o15], ["node_address", 0o3125],
+                         ["node_address", 0], ["multicast_level", 3], ["power", False], ["set_dynamic_payloads", False, 2]],
+    "Mesh": COMMON + [["data_rate", 250], ["crc", 0], ["set_auto_retries", 4000, 15], ["multicast_level", 1], ["power", False],
+                      ["set_dynamic_payloads", False, {"t": "none"}]],
+}
+SPECS = {"RF24": ["RF24"], "FakeBLE": ["FakeBLE"], "Network": ["Network", 0o25], "Mesh": ["Mesh", 3]}
+
+
+def _enum(depth):
+    """object A configures itself with `depth` calls, object B (any class, also A's own) uses the radio and makes one call,
+    A is re-entered, then B: every ordered class pair x every call of the per-class alphabets"""
+    import itertools
+
+    def gen():
+        for ka in ALPHA:
+            for kb in ALPHA:
+                for wa in itertools.product(ALPHA[ka], repeat=depth):
+                    for y in ALPHA[kb]:
+                        yield {"objs": [SPECS[ka], SPECS[kb]],
+                               "blocks": [{"o": 0, "ops": [list(x) for x in wa]}, {"o": 1, "ops": [list(y)]}, {"o": 0, "ops": []},
+                                          {"o": 1, "ops": []}, {"o": 0, "ops": []}]}
+    return gen
+
+
 def parts(tier):
     if tier == "quick":
-        return [Part("generated", "gen", _strategy, n=3000)]
-    return [Part("generated", "gen", _strategy, n=40000)]
+        return [Part("enum-pairs-1x1", "enum", _enum(1), exhaustive=True), Part("generated", "gen", _strategy, n=3000)]
+    return [Part("enum-pairs-2x1", "enum", _enum(2), exhaustive=True), Part("generated", "gen", _strategy, n=40000)]
